@@ -4,7 +4,7 @@
 # 2. runs the given checks on /repo with the patch applied (and reverts it)
 # 3. stores patch.diff, demo, meta.json under /verif/seeded/<PROP>-<name>/
 set -u
-PROP=$1; NAME=$2; WT=$3; DEST=$4; DEMO="$5"; CRATE=$6; shift 6; CHECKS="$@"
+VROOT=${VROOT:-/verif}; PROP=$1; NAME=$2; WT=$3; DEST=$4; DEMO="$5"; CRATE=$6; shift 6; CHECKS="$@"
 OUT=/verif/seeded/$PROP-$NAME
 mkdir -p $OUT
 cp $WT/OUT/patch.diff $OUT/patch.diff
@@ -31,7 +31,7 @@ echo "demo without patch exit=$R0 (want 0); with patch exit=$R1 (want !=0); exis
 DET=""
 cd /repo && git apply $OUT/patch.diff || { echo "patch does not apply to /repo"; exit 2; }
 for c in $CHECKS; do
-  VERIF_EVIDENCE_DIR=/tmp/verif_scratch_evidence /verif/check $c --tier quick > $OUT/check_$c.log 2>&1; E=$?
+  VERIF_EVIDENCE_DIR=/tmp/verif_scratch_evidence $VROOT/check $c --tier quick > $OUT/check_$c.log 2>&1; E=$?
   V=$(grep -c "^VIOLATION" $OUT/check_$c.log)
   echo "check $c exit=$E violations=$V" | tee -a $LOG
   DET="$DET $c:exit$E"
